@@ -95,7 +95,7 @@ def transforms(draw, game, which=None):
 
 @st.composite
 def game_cases(draw, max_inner=10):
-    g = draw(games.stopping_games(min_inner=2, max_inner=max_inner, max_sinks=3))
+    g = draw(games.stopping_games(min_inner=2, max_inner=max_inner, max_sinks=3, inner_finals=True))
     t = draw(transforms(g))
     return dict(kind="game", game=g, t=t, prune=games.coin(draw))
 
